@@ -83,3 +83,7 @@ Theorem unresolved_names_fail S d l :
 Proof.
   intros H. unfold transact_named. destruct (expand l) as [ops| |]; [exfalso; eapply H; reflexivity| |]; reflexivity.
 Qed.
+
+Lemma create_ids_pointwise (ms : list (sym * bool * bool)) i m :
+  nth_error ms i = Some m -> nth_error (map create_ids ms) i = Some (create_ids m).
+Proof. intros H. apply map_nth_error. exact H. Qed.
